@@ -131,13 +131,13 @@ def check(ctx):
                    f"prepare_axis({m}): no z label in 2-D",
                    key=f"C20.1:label:{m}:z", nontrivial=False)
 
-    _traj(ctx, prog)
-    _segments(ctx, prog)
-    _markers(ctx, prog)
-    _time_axes(ctx, prog)
-    _formatter(ctx, prog)
-    _euler_default(ctx, prog)
-    _purity(ctx, prog)
+    ctx.section(_traj, ctx, prog)
+    ctx.section(_segments, ctx, prog)
+    ctx.section(_markers, ctx, prog)
+    ctx.section(_time_axes, ctx, prog)
+    ctx.section(_formatter, ctx, prog)
+    ctx.section(_euler_default, ctx, prog)
+    ctx.section(_purity, ctx, prog)
 
 
 # --------------------------------------------------------------------- C20.2
